@@ -1582,7 +1582,10 @@ class C04(Property):
             'uploader (2/3) or the downloader (1/3) learns of the reset first, the other end 0..400 s later, so '
             'PeerUploadFailed / the re-queue request arrive before or after), then fault-free; control-plane state '
             'sampled every virtual second around the faults; + 8 / 80 cases with 2-3 uploaders at once (equal / '
-            'different sizes, requests 0..2 s apart, one file connection slower) + 16 / 160 "pfault" cases: the peer '
+            'different sizes, requests 0..2 s apart, one file connection slower; all uploaders share a file of the SAME '
+            'name, so the downloads compete for one local name; in half of these cases every thread-pool round trip '
+            '— aiofiles, create_directory — suspends its caller for a loop iteration as on a real loop, and most of '
+            'those start in the same instant) + 16 / 160 "pfault" cases: the peer '
             'connection(s) that exist when the file connection breaks are broken too — the next control write of the '
             'uploader / the downloader / both on them fails (at once or 0.5 / 5 s later, the first 0..2 writes still get through; the writer is told, nothing '
             'a write had accepted is lost; new connections work), half of them with the downloader learning first and the '
@@ -1611,8 +1614,10 @@ class C04(Property):
         'TCP is modelled by FakeNet: in-order delivery into a real asyncio.StreamReader, segment boundaries chosen by '
         'the schedule, reset = ConnectionResetError on both ends (unread bytes are lost), close = EOF after the '
         'buffered bytes; write back-pressure is not simulated',
-        'aiofiles runs inline (SimLoop executor) except in the pause-in-write cases, where a write is performed at '
-        'once and its completion is withheld; time is virtual; the 180 s transfer read time-out is the only timer '
+        'aiofiles runs inline (SimLoop executor: the call is atomic for the caller) except in the pause-in-write '
+        'cases, where a write is performed at once and its completion is withheld, and in half of the multi-uploader '
+        'pair cases, where every executor call completes one loop iteration later (the caller is suspended, other '
+        'tasks run in between; the work itself is still done at the moment of the call); time is virtual; the 180 s transfer read time-out is the only timer '
         'that matters at loop level and is exercised by the "stall" ending',
         'abort(), removal and re-queueing a COMPLETE download (a NEW file, C09) are out of scope here (C03, C06); an '
         'honest uploader announces the size the file has when the attempt starts and sends the file from the offset it '
